@@ -26,7 +26,9 @@ func TestVerifC10Access(tt *testing.T) {
 		"blocked-subdomain-of-rule", "anon-ignores-profile-rules",
 		"blocked-with-malformed-ecs", "blocked-by-profile-with-malformed-ecs", "blocked-with-bad-device-id",
 		"passed-malformed-ecs-formerr", "passed-bad-device-id",
-		"blocked-root-name", "blocked-root-by-profile-rule", "blocked-by-catch-all-typed-rule", "root-name-passes")
+		"blocked-root-name", "blocked-root-by-profile-rule", "blocked-by-catch-all-typed-rule", "root-name-passes",
+		"near-miss-verdict-flips", "flip-by-client", "flip-by-qtype", "flip-by-label", "flip-by-anon", "flip-by-device",
+		"concurrent-blocked", "concurrent-passed", "blocked-with-canceled-context")
 	st.Finish(tt)
 
 	opts := vfsOpts{AccessHeavy: true, Malformed: true, Root: true}
@@ -37,12 +39,11 @@ func TestVerifC10Access(tt *testing.T) {
 		var hist []string
 		answered := map[string]bool{}
 
-		steps := rapid.IntRange(3, 10).Draw(t, "steps")
-		for i := 0; i < steps; i++ {
-			r := vfsDrawRequest(t, s, opts)
-			v := vfsAccessVerdict(conf, r)
-			tr := s.serve(t, r)
-			hist = append(hist, fmt.Sprintf("%s -> %s", r, tr))
+		// judge decides one served request; prev is the verdict of the request
+		// it was derived from as a near miss, if any.
+		judge := func(r *vfsRequest, tr *vfsTrace, prev *vfsVerdict, mode string) (v vfsVerdict) {
+			v = vfsAccessVerdict(conf, r)
+			hist = append(hist, fmt.Sprintf("%s%s -> %s", mode, r, tr))
 
 			fail := func(format string, args ...any) {
 				t.Fatalf("%s\n%s\nverdict %+v\nhistory:\n  %s", fmt.Sprintf(format, args...), conf, v, strings.Join(hist, "\n  "))
@@ -71,11 +72,11 @@ func TestVerifC10Access(tt *testing.T) {
 				(len(tr.Writes) != 0 || tr.Downstream() != 0 || tr.Err != nil) {
 				if st.Known("c10-global-name-rule-root") {
 					st.Class("known-global-name-rule-root")
-					if !r.BadECS && !r.BadSNI {
+					if !r.BadECS && !r.BadSNI && !r.Canceled {
 						answered[qk] = true
 					}
 
-					continue
+					return v
 				}
 
 				fail("query for the root name matches a global blocked-name rule but was answered / reached a later stage")
@@ -169,20 +170,31 @@ func TestVerifC10Access(tt *testing.T) {
 				if r.BadSNI {
 					classes = append(classes, "blocked-with-bad-device-id")
 				}
-			} else if r.BadSNI {
-				// Not access-blocked, invalid device ID: the documented error
-				// treatment (the handler returns an error and the server
-				// answers SERVFAIL); only "at most one response" is judged.
+
+				if r.Canceled {
+					classes = append(classes, "blocked-with-canceled-context")
+				}
+			} else if r.BadSNI || r.Canceled {
+				// Not access-blocked, invalid device ID or a context that the
+				// caller has already cancelled: the documented error treatment
+				// (the handler returns an error and the server answers
+				// SERVFAIL); only "at most one response" is judged.
 				responses := len(tr.Writes)
 				if tr.Err != nil {
 					responses++
 				}
 
 				if responses > 1 {
-					fail("bad device ID: %d responses (handler writes %d, error %v makes the server add SERVFAIL)", responses, len(tr.Writes), tr.Err)
+					fail("bad device ID / cancelled context: %d responses (handler writes %d, error %v makes the server add SERVFAIL)", responses, len(tr.Writes), tr.Err)
 				}
 
-				classes = append(classes, "passed-bad-device-id")
+				if r.BadSNI {
+					classes = append(classes, "passed-bad-device-id")
+				}
+
+				if r.Canceled {
+					classes = append(classes, "passed-canceled-context")
+				}
 			} else if r.BadECS {
 				// Not access-blocked, malformed ECS: exactly one response, a
 				// FORMERR, and nothing downstream.
@@ -319,7 +331,60 @@ func TestVerifC10Access(tt *testing.T) {
 				nt = fmt.Sprintf("%+v|%s|%s|%d|%s|%d|%v|%q|%s|%t|%t", v, r.Server, r.Client, asn, host, r.QType, conf.GlobalNets, vfsRuleTexts(conf.GlobalRules), acc, r.BadECS, r.BadSNI)
 			}
 
+			if mode != "" {
+				classes = append(classes, "concurrent")
+				if v.Blocked {
+					classes = append(classes, "concurrent-blocked")
+				} else {
+					classes = append(classes, "concurrent-passed")
+				}
+			}
+
+			if r.NearMiss != "" && prev != nil {
+				classes = append(classes, "near-miss-"+r.NearMiss)
+				if prev.Blocked != v.Blocked {
+					classes = append(classes, "near-miss-verdict-flips", "flip-by-"+r.NearMiss)
+				}
+			}
+
 			st.Case(nt, classes...)
+
+			return v
+		}
+
+		// A sequential history; a third of the requests are near misses of
+		// their predecessor (exactly one component changed).
+		steps := rapid.IntRange(3, 10).Draw(t, "steps")
+		var prevReq *vfsRequest
+		var prevV *vfsVerdict
+		for i := 0; i < steps; i++ {
+			r := vfsDrawRequest(t, s, opts, prevReq)
+			v := judge(r, s.serve(t, r), prevV, "")
+			prevReq, prevV = r, &v
+		}
+
+		// Then a batch served concurrently on the same stack (shared pools of
+		// request infos, filtering contexts and messages): every request is
+		// judged by its own events.
+		if rapid.Bool().Draw(t, "concurrentBatch") {
+			n := rapid.IntRange(2, 6).Draw(t, "batch")
+			var batch []*vfsRequest
+			for i := 0; i < n; i++ {
+				var p *vfsRequest
+				if len(batch) > 0 {
+					p = batch[len(batch)-1]
+				}
+
+				batch = append(batch, vfsDrawRequest(t, s, opts, p))
+			}
+
+			for i, tr := range s.serveConcurrently(t, batch) {
+				judge(batch[i], tr, nil, "[concurrent] ")
+			}
+		}
+
+		if n, desc := s.Orphans(); n != 0 {
+			t.Fatalf("%d downstream events carried no request ID or the ID of a request not in flight: %s\n%s\nhistory:\n  %s", n, desc, conf, strings.Join(hist, "\n  "))
 		}
 
 		if st.WantSample() && len(hist) > 3 {
